@@ -582,6 +582,18 @@ pub fn run(opts: &Opts, out: &mut Emitter, prop: &str) {
             (vec![big, 2], vec![1]),
             (vec![], vec![1 << 62, 1 << 62, 1]),
         ];
+        // a single quantity at every edge of the 64- and 128-bit ranges, in a mint and in a burn block (a burn
+        // negates: -2^63 is where the two's-complement range is not symmetric)
+        for v in [0i128, 1, -1, (1 << 31), -(1 << 31), (1 << 63) - 1, 1 << 63, (1 << 63) + 1, -(1 << 63) + 1, -(1 << 63), -(1 << 63) - 1,
+                  (1 << 64) - 1, 1 << 64, -(1 << 64), i128::MAX, i128::MIN, i128::MIN + 1] {
+            for burn in [false, true] {
+                let mut t = empty_tx();
+                t.fees = ada(1);
+                let m = tir::Mint { amount: E::Assets(vec![mk(v)]), redeemer: E::None };
+                if burn { t.burns.push(m) } else { t.mints.push(m) }
+                out.case("mint-boundary", || case(&t, false, true));
+            }
+        }
         for (ms, bs) in shapes {
             let mut t = empty_tx();
             t.fees = ada(1);
